@@ -64,13 +64,13 @@ Theorem C03_solve_end_to_end_sound :
 Proof. exact solve_end_to_end_unsat_sound. Qed.
 Print Assumptions C03_solve_end_to_end_sound.
 
-(* setup(): the state handed to the tests is a success path of setUp, and every other success
-   path was refuted by the solver *)
+(* setup(): the state handed to the tests is a success path of setUp (no error, not stuck), and every other
+   success path was refuted by the solver *)
 Theorem C03_setup_unique :
   forall (Q : Type) (solve_low : Q -> Z) paths p,
     setup_select Q solve_low paths = SetupOk p ->
-    In p paths /\ sp_error p = false /\
-    forall p', In p' paths -> sp_error p' = false -> p' = p \/ solve_low (sp_query p') = S_UNSAT.
+    In p paths /\ sp_error p = false /\ sp_stuck p = false /\
+    forall p', In p' paths -> sp_error p' = false -> sp_stuck p' = false -> p' = p \/ solve_low (sp_query p') = S_UNSAT.
 Proof. exact setup_select_unique. Qed.
 Print Assumptions C03_setup_unique.
 
@@ -81,6 +81,8 @@ Print Assumptions C03_setup_unique.
      query_is_path      (C11) the query of a path is satisfied by the inputs its constraints admit,
      core / low / refine  truthful external solver, sound unsat-core cache, exact refinement,
      panic_data_concrete  36-byte revert data is concrete (the documented caveat of is_panic_of),
+     no early exit        no stuck-path solve was interrupted by the executor shutdown (ShutdownError ends the path
+                          loop; it is raised only after a valid counterexample was found: C05/C17),
    a PASS verdict without warning implies that NO admissible input's concrete execution ends in
    Panic(k), k configured, or sets the failure flag. *)
 Theorem C03_pass_sound :
@@ -105,6 +107,7 @@ Theorem C03_pass_sound :
     (forall q, In (fst (low q)) [S_UNSAT; S_SAT; S_UNKNOWN; S_ERR]) ->
     (forall l d, In l (ex_leaves e) -> l_err Q l = ERevert -> l_data l = Some d -> length d = 36%nat ->
        exists bs, d = map BC bs /\ Forall is_byte bs) ->
+    (forall q, solve_low q <> S_SHUTDOWN) ->
     r_exit (run_test Q solve_assert solve_low codes width e) = EX_PASS ->
     clean (run_test Q solve_assert solve_low codes width e) = true ->
     forall i, admissible i ->
